@@ -514,6 +514,10 @@ fn fib_replay() {
     let mut vrfs: Vec<(String, u32, String, Vec<u32>)> = Vec::new();
     let mut reg: HashMap<String, i64> = HashMap::new();
     let mut observers: Vec<(String, mpsc::UnboundedReceiver<ToPeerEvent>, bool)> = Vec::new();
+    // C18, sequential half: monitoring subscribers (one from the start, others wherever the behaviour says `subscribe`) fold
+    // the Adj-RIB-In events into (peer, prefix, path id) -> (class, next hop), before and after import policy
+    type AdjView = std::collections::BTreeMap<(String, String, u32), (String, String)>;
+    let mut monitors: Vec<(String, Subscription, AdjView, AdjView, bool)> = Vec::new();
     for line in text.lines() {
         let t: Vec<&str> = line.split_whitespace().collect();
         if t.is_empty() {
@@ -569,6 +573,8 @@ fn fib_replay() {
                     let rx = tm.register_peer(a, FnvHashSet::default(), |_| {});
                     observers.push((a.to_string(), rx, false));
                 }
+                monitors.clear();
+                monitors.push(("m0".to_string(), tm.subscribe(true), AdjView::new(), AdjView::new(), false));
                 sources.clear();
                 for (name, addr, ebgp, rtr, role) in &sess_cfg {
                     let (role, rasn) = match role.as_str() {
@@ -614,7 +620,14 @@ fn fib_replay() {
                 let fam = fib_family(&net.nlri);
                 tm.remove_route(src, fam, net, None, 0);
             }
-            "drop" => tm.unregister_peer(peer_addr(t[1]), fams, &[]),
+            "drop" => {
+                tm.unregister_peer(peer_addr(t[1]), fams, &[]);
+                // the session that ends reports it to the monitors, as PeerSession does
+                tm.peer_down(PeerDownData { peer_addr: peer_addr(t[1]), peer_asn: 0, peer_id: 0, uptime: 0, reason: crate::bmp::session_down_to_bmp(None) });
+            }
+            "subscribe" => {
+                monitors.push((t[1].to_string(), tm.subscribe(true), AdjView::new(), AdjView::new(), false));
+            }
             "markstale" => tm.unregister_peer(peer_addr(t[1]), &[], fams),
             "dropstale" => tm.drop_stale_families(peer_addr(t[1]), fams),
             "markllgr" => tm.mark_llgr_stale(peer_addr(t[1]), fams),
@@ -721,7 +734,48 @@ fn fib_replay() {
             }
             notifs.push_str(&format!("\"{}\":[{}]", oname, items.join(",")));
         }
-        let mut s = format!("{{\"notifs\":{{{}}},\"closed\":[{}],\"fib\":{{", notifs, closed.join(","));
+        let mut adj = String::new();
+        for (mi, (mname, sub, pre, post, eos)) in monitors.iter_mut().enumerate() {
+            while let Ok(ev) = sub.rx.try_recv() {
+                let (c, is_post) = match ev {
+                    BgpEvent::AdjRibIn(c) => (c, false),
+                    BgpEvent::AdjRibInPost(c) => (c, true),
+                    BgpEvent::EndOfSnapshot => {
+                        *eos = true;
+                        continue;
+                    }
+                    BgpEvent::PeerDown(d) => {
+                        let who = d.peer_addr.to_string();
+                        pre.retain(|k, _| k.0 != who);
+                        post.retain(|k, _| k.0 != who);
+                        continue;
+                    }
+                    _ => continue,
+                };
+                let view = if is_post { &mut *post } else { &mut *pre };
+                for x in &c.nlris {
+                    let pn = prefixes.iter().find(|p| p.1 == x.nlri).map(|p| p.0.clone()).unwrap_or_else(|| "?".into());
+                    let key = (c.source.remote_addr.to_string(), pn, x.path_id);
+                    match &c.attrs {
+                        None => {
+                            view.remove(&key);
+                        }
+                        Some(a) => {
+                            // the class of the attributes as announced (the rejected variant carries one more community)
+                            let cls = classes.iter().find(|(_, v)| ***v == **a).map(|(k, _)| k.0.clone()).unwrap_or_else(|| "?".into());
+                            let nh = c.nexthop.and_then(|n| nhs.iter().find(|y| y.1 == n.addr()).map(|y| y.0.clone())).unwrap_or_else(|| "?".into());
+                            view.insert(key, (cls, nh));
+                        }
+                    }
+                }
+            }
+            let f = |v: &AdjView| v.iter().map(|(k, x)| format!("[\"{}\",\"{}\",{},\"{}\",\"{}\"]", k.0, k.1, k.2, x.0, x.1)).collect::<Vec<_>>().join(",");
+            if mi > 0 {
+                adj.push(',');
+            }
+            adj.push_str(&format!("\"{}\":{{\"eos\":{},\"pre\":[{}],\"post\":[{}]}}", mname, eos, f(pre), f(post)));
+        }
+        let mut s = format!("{{\"adj\":{{{}}},\"notifs\":{{{}}},\"closed\":[{}],\"fib\":{{", adj, notifs, closed.join(","));
         for (i, (p, _)) in prefixes.iter().enumerate() {
             if i > 0 {
                 s.push(',');
